@@ -2,17 +2,23 @@
   Complete finite table: each of the 65 536 binary16 patterns is converted by `f16ToF32`
   (the model of `half::f16::to_f32`) to a binary32 pattern denoting exactly the same value
   (same sign and magnitude, infinity to the same infinity, NaN to NaN).
-  Checked by kernel evaluation (`decide +kernel`), no `native_decide`.
+  Checked by kernel evaluation (`decide +kernel`) in 4 × 16 chunks, no `native_decide`.
 -/
-import Minicbor.Float
+import Minicbor.Lemmas.FloatTabDecode0
+import Minicbor.Lemmas.FloatTabDecode1
+import Minicbor.Lemmas.FloatTabDecode2
+import Minicbor.Lemmas.FloatTabDecode3
 
 namespace Minicbor
+open FloatTab
 
 theorem f16_decode_table : ∀ h, h < 65536 → val32 (f16ToF32 h) = val16 h := by
-  have key : (List.range 65536).all (fun h => decide (val32 (f16ToF32 h) = val16 h)) = true := by
-    decide +kernel
+  have a0 : allFrom 0 16384 decP0 = true := decP0_all
+  have a1 : allFrom 0 32768 decP0 = true := allFrom_append a0 decP1_all (by decide) (by decide)
+  have a2 : allFrom 0 49152 decP0 = true := allFrom_append a1 decP2_all (by decide) (by decide)
+  have a3 : allFrom 0 65536 decP0 = true := allFrom_append a2 decP3_all (by decide) (by decide)
   intro h hh
-  have := List.all_eq_true.mp key h (List.mem_range.mpr hh)
+  have := allFrom_spec a3 h (by omega) (by omega)
   exact of_decide_eq_true this
 
 end Minicbor
